@@ -574,9 +574,17 @@ def rename_seq(seq, pi):
     elif k == "geometric":
         s["ratio"] = rename_expr(seq["ratio"], pi)
     elif k == "closed_form":
-        b = frozenset([seq["num_terms_symbol"]])
-        s["sum"] = None if seq.get("sum") is None else rename_expr(seq["sum"], pi, b)
-        s["prod"] = None if seq.get("prod") is None else rename_expr(seq["prod"], pi, b)
+        nts = seq["num_terms_symbol"]
+        if nts in pi:
+            # the placeholder bears the name of a name of this scope (count: N, sum: N*(N+1)/2): it IS that name (the
+            # compiler substitutes it like every other occurrence), so it is renamed with it
+            s["num_terms_symbol"] = pi[nts]
+            s["sum"] = None if seq.get("sum") is None else rename_expr(seq["sum"], pi)
+            s["prod"] = None if seq.get("prod") is None else rename_expr(seq["prod"], pi)
+        else:
+            b = frozenset([nts])
+            s["sum"] = None if seq.get("sum") is None else rename_expr(seq["sum"], pi, b)
+            s["prod"] = None if seq.get("prod") is None else rename_expr(seq["prod"], pi, b)
     else:
         s["term_expression"] = rename_expr(seq["term_expression"], pi, frozenset([seq["iterator_symbol"]]))
     return s
